@@ -5,7 +5,7 @@ From UV Require Export Base.Prelude.
 Inductive blk :=
 | Raw (content : bytes)                           (* raw-codec block *)
 | Pb  (data : option bytes) (links : list plink)  (* dag-pb block *)
-| Ext (id : N)                                    (* a target the operation never opens (directory entries) *)
+| Ext (id : N) (cidlen : N)                       (* a target the operation never opens (directory entries); cidlen = byte length of its CID *)
 with plink :=
 | PLink (name : option bytes) (tsize : option Z) (target : blk).
 
@@ -16,12 +16,12 @@ Definition l_target (l : plink) := match l with PLink _ _ t => t end.
 Section BlkInd.
   Variable P : blk -> Prop.
   Hypothesis HRaw : forall c, P (Raw c).
-  Hypothesis HExt : forall i, P (Ext i).
+  Hypothesis HExt : forall i n, P (Ext i n).
   Hypothesis HPb : forall d ls, Forall (fun l => P (l_target l)) ls -> P (Pb d ls).
   Fixpoint blk_ind' (b : blk) : P b :=
     match b with
     | Raw c => HRaw c
-    | Ext i => HExt i
+    | Ext i n => HExt i n
     | Pb d ls =>
       HPb d ls ((fix go (ls : list plink) : Forall (fun l => P (l_target l)) ls :=
                    match ls with
@@ -34,7 +34,7 @@ End BlkInd.
 Fixpoint blk_eqb (a b : blk) : bool :=
   match a, b with
   | Raw x, Raw y => bytes_eqb x y
-  | Ext x, Ext y => N.eqb x y
+  | Ext x n, Ext y m => N.eqb x y && N.eqb n m
   | Pb d ls, Pb d' ls' =>
     opt_eqb bytes_eqb d d' &&
     (fix go (x y : list plink) : bool :=
